@@ -232,11 +232,11 @@ pub mod dom {
         }
         pub fn append_child_id(&self, c: u8) { unsafe { let n = NCH[self.id as usize] as usize; CH[self.id as usize][n] = c; NCH[self.id as usize] = (n + 1) as u8; } }
         pub fn document(&self) -> Document<'a> { Document(PhantomData) }
-        /// only the "id" attribute is modelled; its value is kept as a code: (length << 8) | last byte  (injective on the ids the harnesses use)
+        /// only the "id" attribute is modelled; its value is kept as a code: (first byte << 8) | last byte  (injective on the ids the harnesses use)
         pub fn attribute(&self, nm: &str) -> Option<u16> { if nm.len() == 2 { let c = unsafe { IDCODE[self.id as usize] }; if c == 0 { None } else { Some(c) } } else { None } }
         pub fn set_attribute_value(&self, nm: &str, value: &str) { if nm.len() == 2 { unsafe { IDCODE[self.id as usize] = id_code(value); } } }
     }
-    pub fn id_code(value: &str) -> u16 { ((value.len() as u16) << 8) | (value.as_bytes()[value.len() - 1] as u16) }
+    pub fn id_code(value: &str) -> u16 { ((value.as_bytes()[0] as u16) << 8) | (value.as_bytes()[value.len() - 1] as u16) }
     pub fn name<'a>(e: &Element<'a>) -> &'static str { NAMES[unsafe { KIND[e.id as usize] } as usize] }
     pub fn as_element<'a>(c: ChildOfElement<'a>) -> Element<'a> { let ChildOfElement::Element(e) = c; e }
     pub fn create_mathml_element<'a>(_doc: &Document<'a>, nm: &str) -> Element<'a> {
@@ -258,9 +258,8 @@ fn to_string_stub<T: core::fmt::Display + ?Sized>(v: &T) -> String {
     if tn.len() == 5 {   // "usize"
         let x: usize = unsafe { *(v as *const T as *const usize) };
         assert!(x < 26, "count outside the stub's range");
-        let mut s = String::new();
-        s.push((b'a' + x as u8) as char);
-        s
+        const LETTERS: &str = "abcdefghijklmnopqrstuvwxyz";
+        String::from(&LETTERS[x..x + 1])
     } else {
         let n = core::mem::size_of_val(v);
         let b = unsafe { core::slice::from_raw_parts(v as *const T as *const u8, n) };
